@@ -122,6 +122,7 @@ example : reorder (.tbl [(1, .tbl []), (2, .scalar 0)]) = .tbl [(2, .scalar 0), 
 #print axioms Xt.Props.Fidelity.unrepresentable_is_error
 #print axioms Xt.Props.Fidelity.bin_value_becomes_array
 #print axioms Xt.Props.Fidelity.json_to_msgpack_fidelity
+#print axioms Xt.Props.Fidelity.json_to_msgpack_fidelity_of_wf
 #print axioms Xt.Props.Fidelity.json_to_msgpack_fidelity_documents
 #print axioms Xt.Props.Fidelity.json_to_msgpack_fidelity_floats
 #print axioms Xt.Props.Fidelity.five_stays_integer
